@@ -10,7 +10,8 @@ package metric
 // cancelat j: the contexts of the next cycle's two collections are cancelled WHILE instrument j is being aggregated
 // (a hook exemplar reservoir installed through the instrument's view — public API — cancels from its Collect).
 // by <pos> <kinds> (first op): the provider has a third reader at position pos whose AggregationSelector drops the
-// instrument kinds in <kinds> (c u h g C U G); it is collected in every cycle, its data are discarded.
+// instrument kinds in <kinds> (c u h g C U G) or — "!<kinds>" — answers an aggregation isAggregatorCompatible rejects
+// (LastValue for the sum / histogram kinds, Sum for gauges); it is collected in every cycle, its data are discarded.
 // cberr: every callback that runs in the next cycle returns an error AFTER making its observations (the SDK joins such
 // errors and returns them together with the collected data; header "<cycle>:<D|C>:e" = Collect returned an error).
 // gen tags ending in "+fresh" collect into a fresh ResourceMetrics each time; all others reuse ONE ResourceMetrics
@@ -307,6 +308,7 @@ func TestVerifC08Twin(t *testing.T) {
 		for _, op := range ops {
 			if op[0] == "by" && len(op) == 3 && rb == nil {
 				dropped := map[InstrumentKind]bool{}
+				reject := strings.HasPrefix(op[2], "!") // "!<kinds>": an aggregation isAggregatorCompatible rejects instead of Drop
 				for _, ch := range op[2] {
 					switch ch {
 					case 'c':
@@ -326,6 +328,12 @@ func TestVerifC08Twin(t *testing.T) {
 					}
 				}
 				rb = NewManualReader(WithAggregationSelector(func(k InstrumentKind) Aggregation {
+					if dropped[k] && reject {
+						if k == InstrumentKindGauge || k == InstrumentKindObservableGauge {
+							return AggregationSum{}
+						}
+						return AggregationLastValue{}
+					}
 					if dropped[k] {
 						return AggregationDrop{}
 					}
@@ -951,6 +959,11 @@ func TestVerifC08Twin(t *testing.T) {
 			kinds := ""
 			for c := 1 + r.Intn(3); c > 0; c-- {
 				kinds += string("CUGCUGcuhg"[r.Intn(10)])
+			}
+			if r.Bool() {
+				// the bystander REJECTS these kinds (incompatible aggregation: the instrument constructors join the error
+				// and go on with the remaining readers) instead of dropping them
+				kinds = "!" + kinds
 			}
 			ops = append([][]string{{"by", strconv.Itoa(r.Intn(3)), kinds}}, ops...)
 		}
